@@ -1,4 +1,289 @@
-(* C06 — placeholder while the proofs are being built *)
-From Coq Require Import ZArith.
-Theorem C06_placeholder : True. Proof. exact I. Qed.
-Print Assumptions C06_placeholder.
+(* C06 — LP fee and incentive accrual: fully backed, in-range only, pro-rata, claim-once.
+   Statements only; proofs in Amm/FeesVec.v, FeesProofs.v, FeesLoop.v, FeesFlow.v, FeesSwap.v,
+   FeesAccrual.v, FeesBacking.v.  All statements are about the bit-exact model Amm/Pool.v of
+   x/liquiditypool (validated against the real code on every run by Amm/C06Check.v). *)
+From Coq Require Import ZArith List Bool Sorted.
+Import ListNotations.
+From Sunrise Require Import Base.Outcome Base.Dec Amm.Math Amm.Pool Amm.LiqDefs Amm.LiqInv Amm.Fees Amm.FeesVec
+  Amm.FeesProofs Amm.FeesLoop Amm.FeesFlow Amm.FeesSwap Amm.FeesAccrual Amm.FeesBacking.
+Local Open Scope Z_scope.
+
+(* ---- fees are charged at the pool's rate on the input ---- *)
+
+(* fee_ge_rate, per bucket step that charges through fee/(1-fee) (every exact-out step, every
+   exact-in step that reaches its target): fee*(1-rate) >= amount_in*rate, i.e. the fee is at least
+   rate x (amount_in + fee), and at most (rate/(1-rate) + 1e-18) x amount_in + 1e-18 *)
+Theorem C06_fee_ge_rate : forall amount_in fee fomf fc,
+  0 <= amount_in -> 0 < fee < P ->
+  fee_over_one_minus_fee fee = Some fomf -> fee_charge_from_in amount_in fomf = Some fc ->
+  amount_in * fee <= fc * (P - fee) /\
+  fc * P * (P - fee) < amount_in * (fee * P + (P - fee)) + P * (P - fee) /\ 0 <= fc.
+Proof. exact fee_charge_bounds. Qed.
+Print Assumptions C06_fee_ge_rate.
+
+(* the same on whole coins for an exact-out swap: with i coins paid and f coins of fee,
+   rate*(i-1) <= f <= (rate + 1e-18)*i + 2, provided every step's input amount is non-negative *)
+Theorem C06_fee_rate_exact_out : forall s din dout specified s' i o,
+  0 < p_fee (a_pool s) < P -> Z.of_nat (length (a_ticks s)) + 300 <= P ->
+  swap s false din dout specified true = Ok (s', i, o) ->
+  exists steps, Forall (fee_step (p_fee (a_pool s))) steps /\
+    (Forall (fun x : Z * Z => 0 <= fst x) steps ->
+     let f := nth (Z.to_nat din) (swap_fee_coins s false din dout specified) 0 in
+     p_fee (a_pool s) * (i - 1) <= f * P /\ f * P <= p_fee (a_pool s) * i + i + 2 * P).
+Proof. exact exact_out_fee_rate. Qed.
+Print Assumptions C06_fee_rate_exact_out.
+
+(* ---- fees and incentives go to the fee account, claims come out of it, nothing else moves it ---- *)
+
+(* fees_to_fee_account: every successful operation moves the fee account by exactly
+   [received] (swap: ceil(sum of step fees) of the input denom; allocation: the coins) minus
+   [claimed_by] (claim: the coins of the response; decrease/increase: the collect inside) *)
+Theorem C06_fees_to_fee_account : forall s o s' out,
+  FeeWF s -> op_wf o -> step s o = (s', Ok out) ->
+  FeeWF s' /\ len4 (received s o) /\ len4 (claimed_by s o) /\
+  a_bal_fee s' = vminus (vplus (a_bal_fee s) (received s o)) (claimed_by s o).
+Proof. exact fee_account_flow. Qed.
+Print Assumptions C06_fees_to_fee_account.
+
+(* the coins a swap sends to the fee account cover the fees charged in its steps *)
+Theorem C06_swap_fee_coins_cover : forall fees fc, 0 <= fees -> dceil fees = Some fc -> fees <= dtrunc_int fc * P.
+Proof. exact swap_fee_coins_cover. Qed.
+Print Assumptions C06_swap_fee_coins_cover.
+
+(* over every history: balance + paid out = initial balance + received, with the ghost totals *)
+Theorem C06_fee_account_history : forall ops s recv cl s' recv' cl',
+  FeeWF s -> Forall op_wf ops -> len4 recv -> len4 cl ->
+  run_ghost s recv cl ops = (s', recv', cl') ->
+  FeeWF s' /\ len4 recv' /\ len4 cl' /\
+  vplus (a_bal_fee s') (vplus cl' recv) = vplus (a_bal_fee s) (vplus recv' cl).
+Proof. exact ghost_run. Qed.
+Print Assumptions C06_fee_account_history.
+
+Theorem C06_step_preserves_wf : forall s o, FeeWF s -> op_wf o -> FeeWF (fst (step s o)).
+Proof. exact step_fee_wf. Qed.
+Print Assumptions C06_step_preserves_wf.
+
+(* ---- incentives accrue like fees ---- *)
+
+(* incentive_accrues_like_fees: an allocation raises the global growth by QuoTruncate(c, L) per denom
+   - the expression a swap step applies to its fee (Fees.loop_iter) - and nothing else *)
+Theorem C06_incentive_accrues_like_fees : forall s coins s',
+  FeeWF s -> len4 coins -> allocate_incentive s coins = Ok s' ->
+  0 < p_liq (a_pool s) /\
+  a_ticks s' = a_ticks s /\ a_pool s' = a_pool s /\ a_positions s' = a_positions s /\ a_acc_pos s' = a_acc_pos s /\
+  a_acc_shares s' = a_acc_shares s /\ len4 (a_acc_value s') /\
+  forall j, (j < 4)%nat ->
+    dquoT (dec_of_int (nth j coins 0)) (p_liq (a_pool s)) = Some (nth j (a_acc_value s') 0 - nth j (a_acc_value s) 0).
+Proof. exact allocate_growth. Qed.
+Print Assumptions C06_incentive_accrues_like_fees.
+
+(* ---- accrual only in range ---- *)
+
+(* growth_inside_def + accrues_only_in_range for swaps: the growth inside [lo,up) rises by exactly the
+   growth of the steps taken while lo <= cursor < up (each event of [evs] is one step: cursor, growth,
+   fee, liquidity, with growth = QuoTruncate(fee, liquidity)).
+   PARTIAL in one respect: the hypothesis [swap_cursor_ok] - every tick the loop recomputes from the
+   price lies in the bucket it was walking - is not proved for arbitrary tick parameters (it needs
+   monotonicity of the tick -> price map, see C04); it is checked on every implementation step by
+   the out-of-range monitor. *)
+Theorem C06_swap_accrues_in_range_partial : forall s ei din dout specified s' i o lo up a b,
+  FeeWF s -> StronglySorted tick_lt (a_ticks s) -> swap_cursor_ok s ei din specified ->
+  swap s ei din dout specified true = Ok (s', i, o) ->
+  stored (a_ticks s) lo -> stored (a_ticks s) up -> lo <= up ->
+  growth_inside s lo up = Some a -> growth_inside s' lo up = Some b ->
+  exists evs, Forall (ev_ok (din =? 0) (p_tick (a_pool s)) (p_tick (a_pool s'))) evs /\
+    forall j, (j < 4)%nat -> nth j b 0 = nth j a 0 + (if Nat.eqb j (Z.to_nat din) then sum_in evs lo up else 0).
+Proof. exact swap_inside_growth. Qed.
+Print Assumptions C06_swap_accrues_in_range_partial.
+
+(* a position whose range the price does not visit during the swap is entitled to exactly what it
+   was entitled to before (so GetClaimableFees answers the same) *)
+Theorem C06_swap_out_of_range_partial : forall s ei din dout specified s' i o pid pos t t',
+  FeeWF s -> StronglySorted tick_lt (a_ticks s) -> swap_cursor_ok s ei din specified ->
+  vnonneg (a_acc_value s) -> vnonneg (a_acc_value s') ->
+  swap s ei din dout specified true = Ok (s', i, o) ->
+  find_pos (a_positions s) pid = Some pos ->
+  stored (a_ticks s) (pos_lower pos) -> stored (a_ticks s) (pos_upper pos) -> pos_lower pos <= pos_upper pos ->
+  pos_upper pos <= Z.min (p_tick (a_pool s)) (p_tick (a_pool s')) \/ Z.max (p_tick (a_pool s)) (p_tick (a_pool s')) < pos_lower pos ->
+  entitlement s pid = Ok t -> entitlement s' pid = Ok t' -> t' = t.
+Proof. exact swap_out_of_range_entitlement. Qed.
+Print Assumptions C06_swap_out_of_range_partial.
+
+(* the same for allocations: growth inside rises iff the current tick is in the range ... *)
+Theorem C06_allocate_accrues_in_range : forall s coins s' lo up a b,
+  FeeWF s -> len4 coins -> allocate_incentive s coins = Ok s' ->
+  stored (a_ticks s) lo -> stored (a_ticks s) up -> lo < up ->
+  growth_inside s lo up = Some a -> growth_inside s' lo up = Some b ->
+  forall j, (j < 4)%nat ->
+    nth j b 0 = nth j a 0 + (if in_range (a_pool s) lo up then nth j (a_acc_value s') 0 - nth j (a_acc_value s) 0 else 0).
+Proof. exact allocate_inside. Qed.
+Print Assumptions C06_allocate_accrues_in_range.
+
+(* ... and an out-of-range position is entitled to exactly what it was entitled to before *)
+Theorem C06_allocate_out_of_range : forall s coins s' pid pos t t',
+  FeeWF s -> len4 coins -> vnonneg (a_acc_value s) -> vnonneg (a_acc_value s') ->
+  allocate_incentive s coins = Ok s' ->
+  find_pos (a_positions s) pid = Some pos ->
+  stored (a_ticks s) (pos_lower pos) -> stored (a_ticks s) (pos_upper pos) -> pos_lower pos < pos_upper pos ->
+  in_range (a_pool s) (pos_lower pos) (pos_upper pos) = false ->
+  entitlement s pid = Ok t -> entitlement s' pid = Ok t' -> t' = t.
+Proof. exact allocate_out_of_range. Qed.
+Print Assumptions C06_allocate_out_of_range.
+
+(* ---- pro rata ---- *)
+
+(* pro_rata (allocations): what an in-range position of liquidity l can claim rises by dq with
+   c*l/L - l/1e36 - 1 - 1e-18 < dq < c*l/L + 1 + 1e-18 (raw decimals l, L; c whole coins) *)
+Theorem C06_pro_rata : forall s coins s' pid pos ap0 t t',
+  FeeWF s -> len4 coins -> vnonneg coins -> allocate_incentive s coins = Ok s' ->
+  find_pos (a_positions s) pid = Some pos -> find_ap (a_acc_pos s) pid = Some ap0 ->
+  stored (a_ticks s) (pos_lower pos) -> stored (a_ticks s) (pos_upper pos) -> pos_lower pos < pos_upper pos ->
+  in_range (a_pool s) (pos_lower pos) (pos_upper pos) = true ->
+  regular s pid ->
+  entitlement s pid = Ok t -> entitlement s' pid = Ok t' ->
+  forall j, (j < 4)%nat ->
+    let dq := Z.quot (nth j t' 0) P - Z.quot (nth j t 0) P in
+    let L := p_liq (a_pool s) in let l := ap_shares ap0 in let c := nth j coins 0 in
+    (dq - 1) * L * P <= c * l * P + L /\ c * l * P * P <= (dq + 1) * L * P * P + l * L + L * P.
+Proof. exact allocate_pro_rata. Qed.
+Print Assumptions C06_pro_rata.
+
+(* ---- claims ---- *)
+
+(* a claim pays the truncation of the entitlement to whole coins: never more than the entitlement *)
+Theorem C06_claim_truncates : forall s pid s1 c,
+  prepare_claim s pid = Ok (s1, c) ->
+  exists tot, entitlement s pid = Ok tot /\ c = fst (vtrunc tot) /\
+    forall i, (i < length tot)%nat -> 0 <= nth i tot 0 -> nth i c 0 * P <= nth i tot 0 < nth i c 0 * P + P.
+Proof. exact claim_truncates. Qed.
+Print Assumptions C06_claim_truncates.
+
+(* second_claim_zero: after a successful claim, claiming again at once yields zero in every denom
+   (also when the dust of the first claim was re-injected into the accumulator) *)
+Theorem C06_second_claim_zero : forall s pid s1 c s2 c2,
+  len4 (a_acc_value s) -> Forall tick_wf (a_ticks s) -> Forall ap_wf (a_acc_pos s) ->
+  (forall ap, find_ap (a_acc_pos s) pid = Some ap -> 0 < ap_shares ap <= a_acc_shares s) ->
+  prepare_claim s pid = Ok (s1, c) -> prepare_claim s1 pid = Ok (s2, c2) -> c2 = vzero.
+Proof. exact second_claim_zero. Qed.
+Print Assumptions C06_second_claim_zero.
+
+(* no_retroactive_fees: nothing is claimable for a position right after its creation *)
+Theorem C06_no_retroactive_fees : forall s sender lo up base quote mb mq s' pid ab aq l c,
+  len4 (a_acc_value s) -> Forall tick_wf (a_ticks s) ->
+  find_ap (a_acc_pos s) (a_next_id s) = None ->
+  create_position s sender lo up base quote mb mq = Ok (s', (pid, ab, aq, l)) ->
+  claimable_fees s' pid = Ok c -> c = vzero.
+Proof. exact no_retroactive_fees. Qed.
+Print Assumptions C06_no_retroactive_fees.
+
+(* ---- backing ---- *)
+
+(* every entry of growth into the accumulator is covered by coins that entered the fee account:
+   one step: growth x active liquidity <= amount charged *)
+Theorem C06_growth_step_backed : forall fc L per, 0 <= fc -> 0 < L -> dquoT fc L = Some per ->
+  0 <= per /\ per * L <= fc * P.
+Proof. exact growth_step_backed. Qed.
+Print Assumptions C06_growth_step_backed.
+
+(* all steps of a swap *)
+Theorem C06_swap_steps_backed : forall b4q t0 t1 evs,
+  Forall (ev_ok b4q t0 t1) evs -> Forall (fun e : ev => let '(_, _, fc, liq) := e in 0 <= fc /\ 0 <= liq) evs ->
+  sum_pl evs <= sum_fc evs * P /\ Forall (fun e : ev => let '(_, per, _, _) := e in 0 <= per) evs.
+Proof. exact swap_events_backed. Qed.
+Print Assumptions C06_swap_steps_backed.
+
+(* an allocation *)
+Theorem C06_allocate_backed : forall s coins s',
+  FeeWF s -> len4 coins -> vnonneg coins -> allocate_incentive s coins = Ok s' ->
+  forall j, (j < 4)%nat ->
+    0 <= nth j (a_acc_value s') 0 - nth j (a_acc_value s) 0 /\
+    (nth j (a_acc_value s') 0 - nth j (a_acc_value s) 0) * p_liq (a_pool s) <= nth j coins 0 * P * P.
+Proof. exact allocate_backed. Qed.
+Print Assumptions C06_allocate_backed.
+
+(* the dust a claim re-injects: growth x total shares <= entitlement - coins paid *)
+Theorem C06_dust_backed : forall s pid s1 c,
+  FeeWF s -> 0 < a_acc_shares s -> prepare_claim s pid = Ok (s1, c) ->
+  exists tot, entitlement s pid = Ok tot /\ c = fst (vtrunc tot) /\ len4 tot /\ vnonneg tot /\
+    forall j, (j < 4)%nat ->
+      0 <= nth j (a_acc_value s1) 0 - nth j (a_acc_value s) 0 /\
+      (nth j (a_acc_value s1) 0 - nth j (a_acc_value s) 0) * a_acc_shares s <= (nth j tot 0 - nth j c 0 * P) * P.
+Proof. exact dust_backed. Qed.
+Print Assumptions C06_dust_backed.
+
+(* fee_backing, the full statement: over every history from a pool without positions, per denom,
+   coins claimed so far + coins claimable now <= coins the fee account held at the start + received.
+   NOT PROVED in this form.  What is proved: the four per-entry coverage theorems above, that a claim
+   pays at most the entitlement, and (C06_fee_backing_partial) that over every history the statement
+   is equivalent to solvency of the fee account.  Missing: the induction tying the sum of the
+   positions' entitlements to sum(growth x in-range liquidity); note that Dec.Mul rounds half-even,
+   so the sum of entitlements can exceed the exact pro-rata sum by half an ulp (5e-19 coin) per
+   position per update - the inductive invariant must carry that slack, which is absorbed by the
+   truncation of payouts to whole coins only while the number of updates stays below 2e18.
+   The statement is evaluated on the implementation after every step (monitor 1 of C06Check). *)
+Definition C06_fee_backing_full : Prop :=
+  forall ops s0 s recv cl,
+    Inv s0 -> FeeWF s0 -> a_positions s0 = [] -> a_acc_pos s0 = [] -> Forall op_wf ops ->
+    run_ghost s0 vzero vzero ops = (s, recv, cl) ->
+    vle (vplus cl (claimable_sum s)) (vplus (a_bal_fee s0) recv) = true.
+
+Theorem C06_fee_backing_partial : forall ops s0 s recv cl X,
+  FeeWF s0 -> Forall op_wf ops -> run_ghost s0 vzero vzero ops = (s, recv, cl) -> len4 X ->
+  (vle (vplus cl X) (vplus (a_bal_fee s0) recv) = true <-> vle X (a_bal_fee s) = true).
+Proof. exact backing_iff_solvent. Qed.
+Print Assumptions C06_fee_backing_partial.
+
+(* ---- non-vacuity: a concrete history on a coarse-grid pool (ratio 1.1, offset 0.25, fee 5%):
+   a wide position, a position above the price, a swap upward through the second position's lower
+   tick, an incentive allocation, then claims ---- *)
+Definition ex_tp := {| price_ratio := 1100000000000000000; base_offset := 250000000000000000 |}.
+Definition ex_s0 : amm :=
+  fresh_pool 50000000000000000 ex_tp 0 vzero vzero [1000000000000; 1000000000000; 1000000000000; 1000000000000].
+Definition ex_ops : list op :=
+  [OCreate 1 (-10) 10 1000000000 1000000000 0 0;
+   OCreate 1 2 6 1000000000 1000000000 0 0;
+   OSwap true 1 0 600000000;
+   OAllocate [0; 7; 1000003; 999];
+   OClaim 1 [0]].
+Definition ex_run := Eval vm_compute in run_ghost ex_s0 vzero vzero ex_ops.
+Definition ex_s : amm := fst (fst ex_run).
+
+(* the hypotheses of the theorems above hold on reachable states, and the conclusions are not void:
+   the swap crossed an initialised tick and paid a fee of 5% (30000000 of 600000000), the claim of
+   position 0 paid out, a second claim pays nothing, position 1 (out of range until the swap reached
+   its lower tick) has its share left to claim; one coin per denom stays in the account as rounding *)
+Example C06_nonvacuous :
+  FeeWF ex_s0 /\ Inv ex_s0 /\ Forall op_wf ex_ops /\
+  FeeWF ex_s /\ fee_wf_b ex_s = true /\
+  (* receipts and payouts of the history, per denom *)
+  snd (fst ex_run) = [0; 30000007; 1000003; 999] /\
+  snd ex_run = [0; 19608102; 287472; 287] /\
+  (* backing holds at the end, with something left claimable for position 1 *)
+  vle (vplus (snd ex_run) (claimable_sum ex_s)) (snd (fst ex_run)) = true /\
+  claimable_of ex_s 1 = [0; 10391904; 712530; 711] /\
+  (* claiming position 0 again pays nothing *)
+  (exists s2, prepare_claim ex_s 0 = Ok (s2, vzero)).
+Proof.
+  split; [constructor; cbn; try reflexivity; constructor|].
+  split; [apply fresh_pool_inv|].
+  split; [repeat constructor|].
+  split.
+  { apply (C06_fee_account_history ex_ops ex_s0 vzero vzero ex_s (snd (fst ex_run)) (snd ex_run)); try reflexivity.
+    - constructor; cbn; try reflexivity; constructor.
+    - repeat constructor. }
+  vm_compute. repeat split. eexists. reflexivity.
+Qed.
+
+(* the cursor hypothesis of the two partial theorems is satisfiable: it holds for the swap of the
+   example (which crosses tick 2 and stops inside the next bucket) *)
+Definition ex_s2 : amm := Eval vm_compute in fst (fst (run_ghost ex_s0 vzero vzero (firstn 2 ex_ops))).
+Example C06_cursor_ok_nonvacuous :
+  swap_cursor_ok ex_s2 true 1 600000000 /\ StronglySorted tick_lt (a_ticks ex_s2) /\
+  exists s' i o, swap ex_s2 true 1 0 600000000 true = Ok (s', i, o) /\ p_tick (a_pool ex_s2) < 2 <= p_tick (a_pool s').
+Proof.
+  split.
+  { intros limit H. vm_compute in H. injection H as <-. vm_compute. repeat split; discriminate. }
+  split.
+  { repeat (constructor; [|repeat constructor; reflexivity]). constructor. }
+  vm_compute. do 3 eexists. split; [reflexivity|]. split; [reflexivity|discriminate].
+Qed.
